@@ -25,6 +25,7 @@ func init() {
 		ID:    "C14",
 		Level: "exploration",
 		Rule: "edit histories over the public API (add global/function/block, append/insert/remove instruction, set/replace terminator, rename, add metadata, functions/globals/calls over a shared literal struct type and the step that names or renames that type, replacing the callee of a call, declaring a global and giving it an initializer later, putting a metadata definition in front of the others, integer constants shared by several operands and edited in place, float constants built from values beyond 24 bits, block addresses taken from another function; 6-40 steps, PRNG) are replayed on fresh modules: once alone (reference) and once per observer placement (every position x every observer kind for histories of <=10 steps, PRNG subsets of positions and observers for longer ones; observers: Module.String, WriteTo, Func.LLString, Block.LLString, inst.LLString, Type, Ident, String, Operands, Succs, AssignIDs). The final String() must equal the reference, no observer may make a later step or print panic, two consecutive prints must agree. " +
+			"Witness literal-built: a module holding an alias, an ifunc and a phi built as struct literals is printed (entity, function, module) once after Type()/String() were called on them and once without: same texts, no panic. " +
 			"non-trivial = a replay with at least one observer followed by at least one edit; distinct by (history, placement). " +
 			"Histories that shift the numbering of already numbered unnamed values (insert/remove/rename before numbered values after an observer) are part of the PRNG composer and are also run as eight dedicated minimal witness histories",
 		Gen:           genC14,
